@@ -298,7 +298,8 @@ class ProgGen:
             return f'{E(T_STR, d)}[{r.choice(["1:", ":2", "1:3", "::2", ":-1:", "0::", ":"])}]'
         if k == 9 and self.regex_ok:
             self.hit('match')
-            return f'match({E(T_STR, d)}, {r.choice(RX)}{r.choice(["", ", \"i\"", ", \"ms\""])})'
+            fl = r.choice(["", ', "i"', ', "ms"'])
+            return f'match({E(T_STR, d)}, {r.choice(RX)}{fl})'
         if k == 10:
             self.hit('reversed-str')
             return f'reversed({E(T_STR, d)})'
